@@ -570,6 +570,9 @@ def build_scenario(kind, v):
             return scenario(pre, vals, adds=adds, split_after=sa, add_signs=add_signs)
         if kind == "delete":
             return scenario(pre, vals, dels=vals.get("set:to_delete", []), split_after=sa)
+        if kind == "metric":
+            import e2_metric
+            return e2_metric.metric_scenario(v)
         if kind == "search":
             import e2_search
             return e2_search.search_scenario(v, vals.get("unlimited", False))
